@@ -51,6 +51,9 @@ func (m *Mutex) Unlock() {
 		panic("sync: unlock of unlocked mutex")
 	}
 	m.owner = 0
+	// a second point behind the effect: what the caller does right after leaving the critical section (reading
+	// state it no longer protects) can then be overtaken by the next owner
+	csched.SchedPoint("unlock-done", m.id, nil)
 }
 
 func (m *Mutex) unlockNoPoint() {
